@@ -331,6 +331,8 @@ func makeField(v reflect.Value, params fieldParameters) (encoder, error) {
 			var err error
 			tempParams := params
 			tempParams.tagNumber = nil
+			// SET OF: the list is a SET, its elements keep their own type
+			tempParams.set = false
 			for i := 0; i < v.Len(); i++ {
 				s[i], err = makeField(val.Index(i), tempParams)
 				if err != nil {
